@@ -1,7 +1,282 @@
-//! C07: single-threaded event under re-entrant waker callbacks (filled in below).
-pub fn on_callback(_which: &str, _w: u32) {}
+//! C07: the single-threaded one-shot event under re-entrant waker callbacks.
+//!
+//! Stimulus: {"id":n,"storage":"boxed|embedded|pooled|lake","top":[op,...],"cbs":[{"kind":"clone|wake|drop","ops":[op,...]},...]}
+//! `top` are the operations issued with an empty call stack, `cbs[k]` is what the k-th waker-callback invocation (in
+//! invocation order, counted over the whole run) does: operations on the OTHER endpoint, executed re-entrantly from
+//! inside the vtable function.  op: send | sdrop | poll | is_ready | into_value | drop.
+//! An operation whose endpoint is busy (on the call stack) or gone cannot be expressed in safe Rust: it is skipped and
+//! counted as drift (the model predicted something the code did not do).
+//! Everything is logged in one total order (single thread): API inv/resp, waker and payload callbacks, every access to
+//! the event (state / value / awaiter / backtrace, through the folo_verif hooks) and the release.
+use std::cell::{Cell, RefCell};
+use std::future::Future;
+use std::pin::Pin;
+use std::task::{Context, Poll};
+
+use events_once::{Disconnected, EmbeddedLocalEvent, IntoValueError, LocalEvent, LocalEventLake, LocalEventPool};
+use vrt::{json, Tracer, Value};
+
+use crate::{make_waker, Payload};
+
+trait LSnd {
+    fn send_it(self: Box<Self>, v: Payload);
+}
+trait LRcv {
+    fn poll_it(&mut self, cx: &mut Context<'_>) -> Poll<Result<Payload, Disconnected>>;
+    fn ready(&self) -> bool;
+    fn value(self: Box<Self>) -> Result<Payload, Option<Box<dyn LRcv>>>;
+}
+macro_rules! lendpoints {
+    ($s:ty, $r:ty) => {
+        impl LSnd for $s {
+            fn send_it(self: Box<Self>, v: Payload) {
+                (*self).send(v)
+            }
+        }
+        impl LRcv for $r {
+            fn poll_it(&mut self, cx: &mut Context<'_>) -> Poll<Result<Payload, Disconnected>> {
+                Pin::new(self).poll(cx)
+            }
+            fn ready(&self) -> bool {
+                self.is_ready()
+            }
+            fn value(self: Box<Self>) -> Result<Payload, Option<Box<dyn LRcv>>> {
+                match (*self).into_value() {
+                    Ok(v) => Ok(v),
+                    Err(IntoValueError::Pending(back)) => Err(Some(Box::new(back))),
+                    Err(IntoValueError::Disconnected) => Err(None),
+                }
+            }
+        }
+    };
+}
+lendpoints!(events_once::BoxedLocalSender<Payload>, events_once::BoxedLocalReceiver<Payload>);
+lendpoints!(events_once::RawLocalSender<Payload>, events_once::RawLocalReceiver<Payload>);
+lendpoints!(events_once::PooledLocalSender<Payload>, events_once::PooledLocalReceiver<Payload>);
+
+struct CbProg {
+    kind: String,
+    ops: Vec<String>,
+}
+
+thread_local! {
+    static ACTIVE: Cell<bool> = const { Cell::new(false) };
+    static LOG: RefCell<Vec<Value>> = const { RefCell::new(Vec::new()) };
+    static SENDER: RefCell<Option<Box<dyn LSnd>>> = const { RefCell::new(None) };
+    static RECEIVER: RefCell<Option<Box<dyn LRcv>>> = const { RefCell::new(None) };
+    static CBS: RefCell<Vec<CbProg>> = const { RefCell::new(Vec::new()) };
+    static CB_COUNT: Cell<usize> = const { Cell::new(0) };
+    static POLLS: Cell<u32> = const { Cell::new(0) };
+    static DRIFT: Cell<u32> = const { Cell::new(0) };
+}
+
+pub fn active() -> bool {
+    ACTIVE.with(Cell::get)
+}
+
+pub fn log(mut v: Value) {
+    LOG.with(|l| {
+        let mut l = l.borrow_mut();
+        if let Some(o) = v.as_object_mut() {
+            o.insert("task".into(), json!(0));
+            o.insert("seq".into(), json!(l.len() + 1));
+        }
+        l.push(v);
+    });
+}
+
+fn drift() {
+    DRIFT.with(|d| d.set(d.get() + 1));
+}
+
+/// Executes one endpoint operation (top level or from inside a callback).
+fn do_op(op: &str) {
+    match op {
+        "send" | "sdrop" => {
+            let Some(s) = SENDER.with(|c| c.borrow_mut().take()) else {
+                drift();
+                return;
+            };
+            if op == "send" {
+                log(json!({"ev":"inv","side":"S","op":"send"}));
+                s.send_it(Payload(7));
+                log(json!({"ev":"resp","side":"S","op":"send","res":"done"}));
+            } else {
+                log(json!({"ev":"inv","side":"S","op":"drop"}));
+                drop(s);
+                log(json!({"ev":"resp","side":"S","op":"drop","res":"done"}));
+            }
+        }
+        _ => {
+            let Some(mut r) = RECEIVER.with(|c| c.borrow_mut().take()) else {
+                drift();
+                return;
+            };
+            match op {
+                "poll" => {
+                    let id = POLLS.with(|p| {
+                        p.set(p.get() + 1);
+                        p.get()
+                    });
+                    let w = make_waker(id);
+                    log(json!({"ev":"inv","side":"R","op":"poll","w":id}));
+                    let mut cx = Context::from_waker(&w);
+                    match r.poll_it(&mut cx) {
+                        Poll::Pending => {
+                            log(json!({"ev":"resp","side":"R","op":"poll","res":"pending"}));
+                            RECEIVER.with(|c| *c.borrow_mut() = Some(r));
+                        }
+                        Poll::Ready(Ok(p)) => {
+                            let v = p.take_value();
+                            log(json!({"ev":"resp","side":"R","op":"poll","res":"value","v":v}));
+                            drop(r);
+                        }
+                        Poll::Ready(Err(Disconnected)) => {
+                            log(json!({"ev":"resp","side":"R","op":"poll","res":"disc"}));
+                            drop(r);
+                        }
+                    }
+                }
+                "is_ready" => {
+                    log(json!({"ev":"inv","side":"R","op":"is_ready","w":0}));
+                    let b = r.ready();
+                    log(json!({"ev":"resp","side":"R","op":"is_ready","res": if b {"true"} else {"false"}}));
+                    RECEIVER.with(|c| *c.borrow_mut() = Some(r));
+                }
+                "into_value" => {
+                    log(json!({"ev":"inv","side":"R","op":"into_value","w":0}));
+                    match r.value() {
+                        Ok(p) => {
+                            let v = p.take_value();
+                            log(json!({"ev":"resp","side":"R","op":"into_value","res":"value","v":v}));
+                        }
+                        Err(Some(back)) => {
+                            log(json!({"ev":"resp","side":"R","op":"into_value","res":"pending"}));
+                            RECEIVER.with(|c| *c.borrow_mut() = Some(back));
+                        }
+                        Err(None) => {
+                            log(json!({"ev":"resp","side":"R","op":"into_value","res":"disc"}));
+                        }
+                    }
+                }
+                _ => {
+                    log(json!({"ev":"inv","side":"R","op":"drop","w":0}));
+                    drop(r);
+                    log(json!({"ev":"resp","side":"R","op":"drop","res":"done"}));
+                }
+            }
+        }
+    }
+}
+
+/// Called from the scripted waker vtable (after the callback itself has been logged).
+pub fn on_callback(kind: &str, _w: u32) {
+    if !active() {
+        return;
+    }
+    let n = CB_COUNT.with(|c| {
+        let n = c.get();
+        c.set(n + 1);
+        n
+    });
+    let ops: Vec<String> = CBS.with(|c| {
+        let c = c.borrow();
+        match c.get(n) {
+            Some(p) => {
+                if p.kind != kind {
+                    drift();
+                }
+                p.ops.clone()
+            }
+            None => vec![],
+        }
+    });
+    for op in ops {
+        do_op(&op);
+    }
+}
+
 pub fn on_payload_drop() {}
-pub fn run(_stimuli: &str, _out: &str) {
-    eprintln!("local: not built yet");
-    std::process::exit(2);
+
+fn run_one(tr: &Tracer, st: &Value) {
+    crate::reset_addr_ids();
+    let id = st["id"].as_u64().unwrap_or(0);
+    let storage = st["storage"].as_str().unwrap_or("boxed").to_string();
+    let top: Vec<String> = st["top"].as_array().map(|a| a.iter().map(|x| x.as_str().unwrap().to_string()).collect()).unwrap_or_default();
+    let cbs: Vec<CbProg> = st["cbs"]
+        .as_array()
+        .map(|a| {
+            a.iter()
+                .map(|c| CbProg {
+                    kind: c["kind"].as_str().unwrap_or("").to_string(),
+                    ops: c["ops"].as_array().map(|o| o.iter().map(|x| x.as_str().unwrap().to_string()).collect()).unwrap_or_default(),
+                })
+                .collect()
+        })
+        .unwrap_or_default();
+    tr.emit(&json!({"ev":"reset","id":id,"storage":storage,"local":true,"top":top,"cbs":st["cbs"]}));
+    LOG.with(|l| l.borrow_mut().clear());
+    CBS.with(|c| *c.borrow_mut() = cbs);
+    CB_COUNT.with(|c| c.set(0));
+    POLLS.with(|c| c.set(0));
+    DRIFT.with(|c| c.set(0));
+    let mut pool_len: Box<dyn Fn() -> i64> = Box::new(|| -1);
+    let (s, r): (Box<dyn LSnd>, Box<dyn LRcv>) = match storage.as_str() {
+        "embedded" => {
+            let place: &'static mut EmbeddedLocalEvent<Payload> = Box::leak(Box::new(EmbeddedLocalEvent::new()));
+            // SAFETY: the place is leaked: pinned and alive for longer than both endpoints
+            let (s, r) = unsafe { LocalEvent::placed(Pin::new_unchecked(place)) };
+            (Box::new(s), Box::new(r))
+        }
+        "pooled" => {
+            let pool: &'static LocalEventPool<Payload> = Box::leak(Box::new(LocalEventPool::new()));
+            pool_len = Box::new(move || pool.len() as i64);
+            let (s, r) = pool.rent();
+            (Box::new(s), Box::new(r))
+        }
+        "lake" => {
+            let lake: &'static LocalEventLake = Box::leak(Box::new(LocalEventLake::new()));
+            pool_len = Box::new(move || lake.len() as i64);
+            let (s, r) = lake.rent::<Payload>();
+            (Box::new(s), Box::new(r))
+        }
+        _ => {
+            let (s, r) = LocalEvent::<Payload>::boxed();
+            (Box::new(s), Box::new(r))
+        }
+    };
+    SENDER.with(|c| *c.borrow_mut() = Some(s));
+    RECEIVER.with(|c| *c.borrow_mut() = Some(r));
+    ACTIVE.with(|a| a.set(true));
+    let res = vrt::catch(|| {
+        for op in &top {
+            do_op(op);
+        }
+        // finish: whatever still exists is dropped at top level (callbacks beyond the script do nothing)
+        if SENDER.with(|c| c.borrow().is_some()) {
+            do_op("sdrop");
+        }
+        if RECEIVER.with(|c| c.borrow().is_some()) {
+            do_op("drop");
+        }
+    });
+    ACTIVE.with(|a| a.set(false));
+    // endpoints stranded by a panic are leaked, not dropped (dropping could panic again outside the log)
+    SENDER.with(|c| std::mem::forget(c.borrow_mut().take()));
+    RECEIVER.with(|c| std::mem::forget(c.borrow_mut().take()));
+    let log: Vec<Value> = LOG.with(|l| std::mem::take(&mut *l.borrow_mut()));
+    for v in &log {
+        tr.emit(v);
+    }
+    let panicked = res.err().unwrap_or_default();
+    tr.emit(&json!({"ev":"end","id":id,"outcome": if panicked.is_empty() {"completed"} else {"panicked"},
+        "drift": DRIFT.with(Cell::get), "panics":[panicked], "pool_len": pool_len(),
+        "callbacks": CB_COUNT.with(Cell::get)}));
+}
+
+pub fn run(stimuli: &str, out: &str) {
+    let tr = Tracer::create(out);
+    for st in vrt::read_ndjson(stimuli) {
+        run_one(&tr, &st);
+    }
 }
